@@ -18,6 +18,8 @@ def params(cls, nps, scale=1.0):
     if cls == "CylinderSegment":
         r1 = u(0.2, 0.9)
         p1 = u(-180, 120)
+        if nps.random() < 0.2:  # full ring (hollow cylinder): exactly 360 degrees
+            return dict(dimension=(r1 * scale, (r1 + u(0.3, 1)) * scale, u(0.5, 2) * scale, p1, p1 + 360.0), polarization=u(-1, 1, 3))
         return dict(dimension=(r1 * scale, (r1 + u(0.3, 1)) * scale, u(0.5, 2) * scale, p1, p1 + u(30, 300)), polarization=u(-1, 1, 3))
     if cls == "Sphere":
         return dict(diameter=u(0.5, 2) * scale, polarization=u(-1, 1, 3))
@@ -26,6 +28,19 @@ def params(cls, nps, scale=1.0):
             v = u(-1, 1, (4, 3)) * scale
             if abs(np.linalg.det(v[1:] - v[0])) > 0.2 * scale**3:
                 return dict(vertices=v, polarization=u(-1, 1, 3))
+    if cls == "TriangularMesh" and nps.random() < 0.5:
+        # lopsided convex bodies: a pyramid with an off-centre apex, or an uneven convex hull
+        from scipy.spatial import ConvexHull
+        if nps.random() < 0.5:
+            b = u(0.6, 1.2)
+            pts = np.array([[-b, -b, 0], [b, -b, 0], [b, b, 0], [-b, b, 0], [u(-0.4, 0.4), u(-0.4, 0.4), u(1.2, 2.2)]]) * scale
+        else:
+            pts = np.concatenate([u(-1, 1, (7, 3)) * [1, 1, 0.3], [[u(-0.2, 0.2), u(-0.2, 0.2), u(1.5, 2.5)]]]) * scale
+        h = ConvexHull(pts)
+        used = np.unique(h.simplices)
+        remap = {int(v): i for i, v in enumerate(used)}
+        faces = np.array([[remap[int(a)] for a in f] for f in h.simplices])
+        return dict(vertices=pts[used], faces=faces, polarization=u(-1, 1, 3))
     if cls == "TriangularMesh":
         d = u(0.5, 1.5, 3) * scale
         verts = np.array([[x, y, z] for x in (-1, 1) for y in (-1, 1) for z in (-1, 1)]) * d / 2
@@ -95,3 +110,27 @@ def field_scale(obj):
     if hasattr(obj, "moment"):
         return mu_0 * float(np.linalg.norm(obj.moment)) + 1e-30
     return 1.0
+
+
+def interior_points(cls, src, nps, k=3):
+    """points strictly inside the body (local frame), spread over the whole body incl. its far ends; None if not a body"""
+    if cls == "Cuboid":
+        return nps.uniform(-0.45, 0.45, (k, 3)) * np.asarray(src.dimension)
+    if cls == "Cylinder":
+        r = nps.uniform(0, 0.9, k) * src.dimension[0] / 2
+        ph = nps.uniform(0, 2 * np.pi, k)
+        return np.stack([r * np.cos(ph), r * np.sin(ph), nps.uniform(-0.45, 0.45, k) * src.dimension[1]], axis=1)
+    if cls == "Sphere":
+        d = nps.normal(size=(k, 3))
+        return d / np.linalg.norm(d, axis=1)[:, None] * nps.uniform(0, 0.9, (k, 1)) * src.diameter / 2
+    if cls == "CylinderSegment":
+        r1, r2, h, p1, p2 = src.dimension
+        r = nps.uniform(r1 + 0.1 * (r2 - r1), r2 - 0.1 * (r2 - r1), k)
+        ph = np.radians(nps.uniform(p1 + 0.1 * (p2 - p1), p2 - 0.1 * (p2 - p1), k))
+        return np.stack([r * np.cos(ph), r * np.sin(ph), nps.uniform(-0.4, 0.4, k) * h], axis=1)
+    if cls in ("Tetrahedron", "TriangularMesh"):
+        v = np.asarray(src.vertices, float)
+        w = nps.dirichlet(np.full(len(v), 0.35), size=k)  # small alpha: points close to single vertices / far ends
+        c = v.mean(axis=0)
+        return c + 0.9 * (w @ v - c)
+    return None
